@@ -13,4 +13,4 @@ CONSTANTS
   ClosesOnError = TRUE
   KeepsOnResizeFail = TRUE
   ClearsOnClose = TRUE
-INVARIANT MCTypeOK E3 E4 W NoBadFree FailAtExact OwnedIsLive
+INVARIANT MCTypeOK E3 E4 W WEnd NoBadFree FailAtExact OwnedIsLive
